@@ -196,6 +196,18 @@ func (in *inst) parity() *vt.Deviation {
 	if !ok1 || !ok2 {
 		return nil
 	}
+	// who the underlying file system acts as is part of its state: RoFS refuses SetUser/SetUserByName
+	if u, err := in.x.Idm().AddUser("c09user", in.x.Idm().AdminGroup().Name()); err == nil && u != nil {
+		before := in.x.User().Name()
+		e1, e2 := a.SetUser(u), a.SetUserByName("c09user")
+		if after := in.x.User().Name(); after != before || e1 == nil || e2 == nil {
+			_ = in.x.SetUser(in.x.Idm().AdminUser())
+			d := vt.Dev("prop", "C09", "fs", in.kind, "op", "SetUser", "clause", "base-changed")
+			d.Detail = fmt.Sprintf("RoFS(%s) SetUser -> %v, SetUserByName -> %v: the current user of the underlying file system was %q and is %q", in.kind, e1, e2, before, after)
+			return d
+		}
+		_ = in.x.Idm().DelUser("c09user")
+	}
 	if diff := fsx.LexicalParity(a, b, parityStrs); diff != "" {
 		d := vt.Dev("prop", "C09", "fs", in.kind, "op", "helpers", "clause", "read-differs")
 		d.Detail = fmt.Sprintf("RoFS(%s) %s", in.kind, diff)
